@@ -1,10 +1,12 @@
 ------------------------------ MODULE MC_C18 ------------------------------
 EXTENDS C18_Evolution
 \* times in quarter periods: -pi/2 .. 3pi/2 (quick), -pi/2 .. 2pi (thorough)
-TimesCases    == -1..2
+TimesCases    == -1..1
+TimesCasesThorough == -1..2
 TimesQuick    == -1..2
 TimesThorough == -1..4
 T0sOne        == {0}
+T0sShift      == {1}
 T0sTwo        == {0, 1}
 AllKinds      == {"ket", "dop"}
 AllMethods    == {"solve", "integrate", "expm"}
@@ -16,4 +18,9 @@ Repaired      == {"both", "reject"}
 Pinned        == {"left"}
 Solve2OK      == {"ok"}
 Solve2Pinned  == {"crash"}
+PbOK          == {"ok"}
+PbPinned      == {"crash"}
+PbOff         == {FALSE}
+PbOn          == {TRUE}
+PbBoth        == {FALSE, TRUE}
 =============================================================================
